@@ -10,7 +10,11 @@ Statement (properties.jsonl, fixed):
 Every case is a complete run of the REAL `gen_coords` (in-process) on a generated topology
 (1-4 molecule types, `[ molecules ]` lines with counts 1-3, repeated and non-adjacent names, 1-3-atom
 residues, virtual sites, explicit or atom-type masses) x an option combination of
--box / -dens / -c (complete, truncated) / -mc / -res / -grid / -start x a seed.  The written .gro is
+-box / -dens / -c (complete, truncated) / -mc (alone, with -box, with -dens) / -res / -grid / -start x a
+seed; plus two streams about placement outcomes: chains whose supplied and rebuilt residues alternate, with
+a schedule of failing placement steps (rewinds / retries; `RandomWalk.update_positions` is interposed to return
+False at the scheduled calls), and one system with > 5000 supplied one-bead molecules and a chain whose first
+attempt fails.  A run that crashes on an input the model accepts is reported with that input.  The written .gro is
 parsed (fixed columns, as vermouth writes it) and compared with
   * the Lean MODEL of the writing loops (`Coords.listing`: correspondence stream `listing`) and of the box
     decision (`Coords.chooseBox`, mass by `Coords.massOf`, stream `box`);
@@ -85,20 +89,21 @@ def gen_case(rng, thorough):
     for t in types[:1]:
         if not any(m[0] == t["name"] for m in molecules):
             molecules[0][0] = t["name"]
-    mode = rng.choice(["box", "box", "dens", "dens", "dens", "input", "input", "meta", "both", "input+dens"]
+    mode = rng.choice(["box", "box", "dens", "dens", "dens", "input", "input", "meta", "both", "input+dens",
+                       "meta+box", "meta+dens"]
                       if rng.random() < 0.97 else ["none"])
     opts = dict(mode=mode)
     length = float(rng.choice([5, 6, 7.5]))
-    if mode in ("box", "both"):
+    if mode in ("box", "both", "meta+box"):
         opts["box"] = [length, rng.choice([length, length + 1.0]), length]
-    if mode in ("dens", "input+dens"):
+    if mode in ("dens", "input+dens", "meta+dens"):
         opts["density"] = float(rng.choice([10, 20, 35.5, 50]))
-    if mode in ("input", "both", "meta", "input+dens"):
+    if mode in ("input", "both", "meta", "input+dens", "meta+box", "meta+dens"):
         inbox = [length, length, rng.choice([length, length + 0.5])]
-        if mode == "both" and rng.random() < 0.4:
+        if mode in ("both", "meta+box") and rng.random() < 0.3:
             inbox = list(opts["box"])
         opts["input_box"] = inbox
-        opts["input_kind"] = "meta" if mode == "meta" else rng.choice(["full", "full", "truncated"])
+        opts["input_kind"] = "meta" if mode.startswith("meta") else rng.choice(["full", "full", "truncated"])
         opts["keep"] = rng.random()
         if opts["input_kind"] == "full" and rng.random() < 0.4:
             names = sorted({r["resname"] for t in types for r in t["residues"]})
@@ -115,6 +120,45 @@ def gen_case(rng, thorough):
     if rng.random() < 0.2:
         opts["grid_spacing"] = rng.choice([0.5, 1.0])
     return dict(types=types, molecules=molecules, opts=opts, seed=rng.randint(0, 10 ** 6))
+
+
+def gen_interleaved(rng):
+    """a chain given with -c whose residues of one name are rebuilt (-res): supplied and built residues
+    alternate along the chain; some placement steps fail (schedule `fail_calls`: the n-th call of
+    RandomWalk.update_positions returns False, as it does when every trial vector is rejected), so the
+    walk rewinds or the molecule is retried"""
+    nres = rng.randint(8, 16)
+    kinds = [gen_residue(rng, "RA"), gen_residue(rng, "QA")]
+    pattern = rng.choice([[0, 1], [0, 1], [0, 0, 1], [0, 1, 1], [1, 0]])
+    residues = []
+    for i in range(nres):
+        src = kinds[pattern[i % len(pattern)]]
+        residues.append(dict(resname=src["resname"], atoms=[list(a) for a in src["atoms"]]))
+    types = [dict(name="A", residues=residues, resid0=1)]
+    molecules = [["A", rng.choice([1, 1, 2])]]
+    if rng.random() < 0.4:
+        types.append(gen_type(rng, "B"))
+        molecules.insert(rng.randint(0, 1), ["B", rng.choice([1, 2])])
+    length = float(rng.choice([6, 7.5, 9]))
+    nfail = rng.choice([1, 1, 2, 3])
+    opts = dict(mode="input", input_box=[length] * 3, input_kind="full", keep=1.0,
+                build_res=[rng.choice(["RA", "QA"])], input_seed=rng.randint(0, 10 ** 6),
+                fail_calls=sorted(rng.sample(range(1, 2 * nres), nfail)))
+    if rng.random() < 0.3:
+        opts["box"] = [length, length + 1.0, length]
+        opts["mode"] = "both"
+    return dict(types=types, molecules=molecules, opts=opts, seed=rng.randint(0, 10 ** 6))
+
+
+def gen_crowded(rng, nsolvent=5001):
+    """more than 5000 supplied one-bead molecules (the engine opens a new KD-tree for the next molecule)
+    plus one chain to build whose first attempt fails after its first residue was placed"""
+    solvent = dict(name="W", residues=[dict(resname="W", atoms=[["W", "CC", None]])], resid0=1)
+    chain = dict(name="A", residues=[dict(resname="RA", atoms=[["C1", "CA", None]]) for _ in range(rng.randint(2, 4))],
+                 resid0=1)
+    opts = dict(mode="input", input_box=[12.0, 12.0, 12.0], input_kind="truncated", keep_res=nsolvent,
+                slab=True, input_seed=rng.randint(0, 10 ** 6), fail_calls=[1], grid_spacing=1.0)
+    return dict(types=[solvent, chain], molecules=[["W", nsolvent], ["A", 1]], opts=opts, seed=rng.randint(0, 10 ** 6))
 
 
 def type_atoms(t):
@@ -180,8 +224,12 @@ def write_input(path, case):
     rng = random.Random(opts["input_seed"])
     box = opts["input_box"]
     lines, resid_lines = [], []
-    cells = [(i, j, k) for i in range(1, int(box[0])) for j in range(1, int(box[1])) for k in range(1, int(box[2]))]
-    rng.shuffle(cells)
+    if opts.get("slab"):
+        # a dense slab below z = 8 nm, the rest of the box stays free for the molecule that is built
+        cells = [(0.3 + 0.6 * i, 0.3 + 0.6 * j, 0.3 + 0.6 * k) for k in range(13) for j in range(19) for i in range(19)]
+    else:
+        cells = [(i, j, k) for i in range(1, int(box[0])) for j in range(1, int(box[1])) for k in range(1, int(box[2]))]
+        rng.shuffle(cells)
     cell = 0
     for t in expanded(case):
         for r, res in enumerate(t["residues"]):
@@ -201,7 +249,7 @@ def write_input(path, case):
     else:
         keep = len(resid_lines)
         if opts["input_kind"] == "truncated":
-            keep = max(1, int(len(resid_lines) * opts["keep"]))
+            keep = opts.get("keep_res") or max(1, int(len(resid_lines) * opts["keep"]))
         for atoms in resid_lines[:keep]:
             lines += atoms
     with open(path, "w") as out:
@@ -263,6 +311,18 @@ def real_run(case, timeout):
         kwargs["start"] = list(opts["start"])
     if "grid_spacing" in opts:
         kwargs["grid_spacing"] = opts["grid_spacing"]
+    from polyply.src import random_walk
+    orig_update = random_walk.RandomWalk.update_positions
+    fail_calls = set(opts.get("fail_calls", []))
+    calls = [0]
+
+    def update_positions(self, vector_bundle, current_node, prev_node):
+        calls[0] += 1
+        if calls[0] in fail_calls:
+            return False          # what the real method returns when all its trial points were rejected
+        return orig_update(self, vector_bundle, current_node, prev_node)
+    if fail_calls:
+        random_walk.RandomWalk.update_positions = update_positions
     np.random.seed(case["seed"])
     random.seed(case["seed"])
     old = signal.signal(signal.SIGALRM, _alarm)
@@ -280,6 +340,7 @@ def real_run(case, timeout):
     finally:
         signal.setitimer(signal.ITIMER_REAL, 0)
         signal.signal(signal.SIGALRM, old)
+        random_walk.RandomWalk.update_positions = orig_update
         for name in os.listdir(tmp):
             os.remove(os.path.join(tmp, name))
         os.rmdir(tmp)
@@ -324,6 +385,8 @@ def judge(ctx, case, res, answers, box_ans):
     status = res["status"]
     natoms = sum(len(type_atoms(t)) for t in expanded(case))
     key = json.dumps(case, sort_keys=True) if natoms > 1 else None
+    if "fail_calls" in case["opts"]:
+        ctx.tally(stream="crowded" if case["opts"].get("slab") else "interleaved")
     hist = dict(mode=case["opts"]["mode"], status=status, types=len(case["types"]), lines=len(case["molecules"]),
                 grid="grid" in case["opts"], start="start" in case["opts"],
                 input=case["opts"].get("input_kind", "-"), res="build_res" in case["opts"])
@@ -337,6 +400,9 @@ def judge(ctx, case, res, answers, box_ans):
         ctx.correspond("accepts", dict(ok=False), dict(ok=not expected_reject), replay)
         if not expected_reject:
             ctx.tally(error="%s: %s" % (res["err"], res["text"][:60]))
+            ctx.oracle_fail("crash-on-accepted-input", "gen_coords raised %s (%s) and wrote no structure for a topology "
+                            "and option set it accepts: molecules %s, options %s"
+                            % (res["err"], res["text"][:120], [m for m in case["molecules"]][:6], case["opts"]), replay)
         ctx.case(key, **hist)
         return
     ctx.correspond("accepts", dict(ok=True), dict(ok=model_box is not None), replay)
@@ -427,7 +493,9 @@ def run(ctx):
         "C03_all_positioned takes the completeness of a successful random walk (C17) as a hypothesis"]
     ctx.extra["explanation"] = "level_note: partial — float cube root / rounding and optimiser finiteness are trusted"
     cases = corpus_cases()
-    cases += [gen_case(ctx.rng, ctx.thorough) for _ in range(ctx.budget(120, 2400))]
+    cases += [gen_crowded(ctx.rng) for _ in range(ctx.budget(1, 2))]
+    cases += [gen_interleaved(ctx.rng) for _ in range(ctx.budget(24, 300))]
+    cases += [gen_case(ctx.rng, ctx.thorough) for _ in range(ctx.budget(110, 2200))]
     run_cases(ctx, cases)
     if not any(k == "status=ok" for k in ctx.dist):
         ctx.tie_broken("correspondence", "e2e:no-run-finished", "no gen_coords run finished")
